@@ -65,6 +65,7 @@ func getHTTPBreaker(ctx *Context, uri string) *OutboundBreaker {
 	u, err := url.Parse(uri)
 	if err != nil {
 		Log(WARN, ctx, "getHTTPBreaker", "error", err, "url", uri)
+		return nil
 	}
 	b, _ = HTTPBreakers[u.Host]
 	return b
